@@ -163,7 +163,7 @@ func judgeC17(c c11Case) (string, string) {
 	srcDir, out := filepath.Join(root, "src"), filepath.Join(root, "out")
 	os.Mkdir(srcDir, 0755)
 	os.Mkdir(out, 0755)
-	if c.Under != "mem" {
+	if c.Under != "mem" && c.Under != "multi" {
 		if err := fsmodel.Materialize(c.Tree, srcDir); err != nil {
 			return "infra", err.Error()
 		}
@@ -359,6 +359,10 @@ func c17Cases(tier string) []c11Case {
 	exc := patternLists(1, c11Patterns)
 	if tier == "thorough" {
 		inc = patternLists(2, c11Patterns)
+	}
+	// a composite of three sub-roots (one name a prefix of another, directories of equal base names), plain and filtered
+	for _, f := range [][2][]string{{nil, nil}, {{"p1"}, nil}, {nil, {"p"}}, {{"*/a"}, nil}, {nil, {"p1/a"}}, {{"r", "p1/z"}, nil}} {
+		out = append(out, c11Case{Tree: c11MultiTree(), Include: f[0], Exclude: f[1], Under: "multi"})
 	}
 	// hard-link groups of special files and of symlinks
 	for _, lab := range fsmodel.Partitions(4) {
